@@ -4,6 +4,7 @@
     counts, factorisations, filter lists and weight lists are all universally
     quantified; the accumulation / DFI clauses hold over every field. *)
 From Dino Require Import Base.Ops Base.Sums Base.Inst Model.Combinators Thm.Combinators.
+From Dino Require Import Model.Filters Model.Invariants Gen.CombinatorsSrc Thm.CombinatorsSrc.
 From Coq Require Import Qcanon.
 Local Open Scope F_scope.
 
@@ -157,6 +158,44 @@ Proof.
   - apply Qc_list_eq. vm_compute. reflexivity.
 Qed.
 
+(** ** Tie to the source by translation (regenerated on every run): the arithmetic of
+    accumulate_repeated, _dfi_lanczos_weights and digital_filter_initialization in
+    Model/Combinators.v IS the code of dinosaur/time_integration.py ([*_src] transcribed from the
+    AST by tools/translate/gen_combinators.py; the bodies of step_with_filters and repeated, the scan
+    call and the construction of the forward / backward steps are pinned textually). *)
+Theorem C14_model_is_source {F : Type} {o : Ops F} {Fc : FieldC o}
+    (step_fn : V -> V) (ode_solver : ImEx -> F -> V -> V) (equation : ImEx) (filters : list (V -> V -> V))
+    (weights : list F) (dt : F) (state : V) (a b c n nn time_span cutoff_period : F) :
+  accumulate_repeated step_fn weights state =
+    snd (fst (scan (fun (carry : V * V) weight =>
+                      let state' := step_fn (fst carry) in
+                      ((state', map2 (fun s a => acc_update_src a weight s) state' (snd carry)), tt))
+                   (state, zeros_like state) weights)) /\
+  dfi ode_solver equation filters weights dt state =
+    (let forward_step := step_with_filters (ode_solver equation dt) filters in
+     let backward_step := step_with_filters (ode_solver (time_reversed equation) dt) filters in
+     let total_weight := dfi_total_weight_src (vsum weights) in
+     let init_weight := dfi_init_weight_src / total_weight in
+     let weights' := map (fun w => w / total_weight) weights in
+     let init_term := map (fun x => dfi_init_term_src x init_weight) state in
+     let forward_term := accumulate_repeated forward_step weights' state in
+     let backward_term := accumulate_repeated backward_step weights' state in
+     map2 (fun ab c => ab + c) (map2 (fun a b => 0 + a + b) init_term forward_term) backward_term) /\
+  (0 + a + b) + c = dfi_sum3_src a b c /\
+  dfi_round_arg_src time_span dt = time_span / (Combinators.two * dt) /\
+  dfi_sinc1_arg_src n nn = n / (nn + 1) /\
+  dfi_sinc2_arg_src n nn time_span cutoff_period = n * time_span / (cutoff_period * nn) /\
+  gen_combinators_ok = true.
+Proof.
+  split; [apply acc_update_matches_source|].
+  split; [apply dfi_matches_source|].
+  split; [apply dfi_sum3_matches_source|].
+  split; [apply (lanczos_args_match_documentation n nn time_span cutoff_period dt)|].
+  split; [apply (lanczos_args_match_documentation n nn time_span cutoff_period dt)|].
+  split; [apply (lanczos_args_match_documentation n nn time_span cutoff_period dt)|].
+  exact gen_combinators_complete.
+Qed.
+
 Print Assumptions C14_scan_sequential.
 Print Assumptions C14_repeated_iter.
 Print Assumptions C14_filters_in_order.
@@ -170,3 +209,4 @@ Print Assumptions C14_dfi_formula.
 Print Assumptions C14_dfi_fixed_point.
 Print Assumptions C14_time_reversed.
 Print Assumptions C14_hyps_satisfiable.
+Print Assumptions C14_model_is_source.
